@@ -2,6 +2,7 @@ package gen
 
 import (
 	"github.com/dtn7/dtn7-go/verif/ref"
+	"strings"
 )
 
 // Dim is one dimension of the bundle alphabet: N values, value 0 is the default;
@@ -12,7 +13,11 @@ type Dim struct {
 	Apply func(s *Spec, v int)
 }
 
-var EIDForms = []string{"dtn://n/", "dtn:none", "dtn://n/x", "dtn://n/~g", "ipn:1.1", "ipn:18446744073709551615.18446744073709551615", "dtn://other-node.with_chars/a/b/c"}
+var EIDForms = []string{"dtn://n/", "dtn:none", "dtn://n/x", "dtn://n/~g", "ipn:1.1", "ipn:18446744073709551615.18446744073709551615", "dtn://other-node.with_chars/a/b/c",
+	// multi-byte UTF-8 in the demux part (character count != byte count), and scheme-specific parts whose length
+	// sits on both sides of the CBOR width boundaries 23/24 and 255/256
+	"dtn://n/caf\u00e9", "dtn://n/\u20ac\U0001F600x",
+	"dtn://n/" + strings.Repeat("a", 17), "dtn://n/" + strings.Repeat("b", 18), "dtn://n/" + strings.Repeat("c", 249), "dtn://n/" + strings.Repeat("d", 250)}
 
 var U64Bounds = []uint64{0, 1, 23, 24, 255, 256, 65535, 65536, 1<<32 - 1, 1 << 32, 1<<64 - 1}
 
